@@ -30,13 +30,14 @@ REPLACEMENTS = ["longer-body", "minimal-body", "other-content", "other-backbone"
 
 def bounds(tier):
     return dict(enzymes=[n for n, _ in gen.enzymes()] if tier == "thorough" else ["BsaI", "BbsI", "BspQI", "BspD6I", "FokI", "BccI"],
+                mixed_enzymes="vector / module enzyme pairs " + str(MIXED) + ": replacement modules whose backbone holds a site of the vector's enzyme",
                 k=[1, 2, 3], replacements=REPLACEMENTS, replacement_containers=gen.CONTAINERS,
                 registry_pairs="all same-overhang pairs of valid module plasmids of each registry (k=1, generated vector)",
                 canonical_chains="first simple chain from each registry vector (search over module types), every position x every same-type plasmid")
 
 
 def goals(tier):
-    return ["generated-replacement", "replacement-in-another-container", "reverse-strand-stored", "registry-pair", "canonical-chain", "chain-length>=4", "ytk", "cidar", "ecoflex", "plant"]
+    return ["mixed-enzymes", "generated-replacement", "replacement-in-another-container", "reverse-strand-stored", "registry-pair", "canonical-chain", "chain-length>=4", "ytk", "cidar", "ecoflex", "plant"]
 
 
 def align(prod, anchor):
@@ -350,8 +351,60 @@ def unit_registry_chains(st, regname, tier):
     st.sample(dict(family="chains", reg=regname))
 
 
+MIXED = [("BbsI", "BsaI"), ("BsaI", "BsmBI"), ("BsmBI", "BbsI")]       # (vector enzyme, module enzyme): both leave 4-nt overhangs
+
+
+def unit_mixed(st, venz, menz):
+    """The vector is opened by one enzyme, the modules are released by another (as CIDAR's DVA vectors and BsaI parts).  A module is
+    replaced by modules with the same overhangs whose BACKBONE -- which never enters the product -- holds a site of the vector's
+    enzyme, in either orientation."""
+    gv, gm = gen.geometry_of(gen.enzyme(venz)), gen.geometry_of(gen.enzyme(menz))
+    M, V = gen.generic_classes(menz)[0], gen.generic_classes(venz)[1]
+    gen.prime([M, V])
+    forbid = [gv.site, gv.rsite, gm.site, gm.rsite]
+    words = gen.overhang_words(4, 4, 1)
+    for k in (1, 2):
+        ovs = words[: k + 1]
+        bodies = [gen.word(i, 5 + 3 * i, 4 + i, forbid) for i in range(k)]
+        vbb = gen.word(1, 61, 6, forbid)
+        vec = gen.mk_vector(gv, ovs[k], ovs[0], vbb, gen.word(0, 47, 4, forbid), x=gen.word(0, 29, gv.off, forbid), y=gen.word(0, 41, gv.off, forbid))
+        mods = [gen.mk_module(gm, ovs[i], bodies[i], ovs[i + 1], gen.word(i + 1, 31, 5, forbid), x=gen.word(0, 3, gm.off, forbid), y=gen.word(0, 17, gm.off, forbid))
+                for i in range(k)]
+        if rm.count_sites(vec, gv) != 2 or any(rm.count_sites(m, gm) != 2 for m in mods):
+            st.filtered += 1
+            continue
+        vent = V(gen.crec(vec, "v"))
+        ments = [M(gen.crec(m, "m%d" % i)) for i, m in enumerate(mods)]
+        o1 = asm.run_assemble(vent, list(ments))
+        scn0 = dict(family="mixed", vector_enzyme=venz, module_enzyme=menz, k=k)
+        if o1.kind != "product":
+            st.violation("mixed", "base-assembly-fails-" + str(o1.exc_name), scn0, "product", o1.brief())
+            continue
+        anchor = ovs[k] + vbb
+        for j in range(k):
+            for site, label in ((gv.site, "vector-enzyme-site-in-the-backbone"), (gv.rsite, "reverse-vector-enzyme-site-in-the-backbone"), ("", "plain-backbone")):
+                for nb in (bodies[j], gen.word(3, 40 + j, len(bodies[j]) + 3, forbid)):
+                    rep = gen.mk_module(gm, ovs[j], nb, ovs[j + 1], "AT" + site + "TA", x=gen.word(0, 3, gm.off, forbid), y=gen.word(0, 17, gm.off, forbid))
+                    if rm.count_sites(rep, gm) != 2:
+                        st.filtered += 1
+                        continue
+                    scn = dict(scn0, position=j, replacement=label, new_body=nb != bodies[j])
+                    ms = list(ments)
+                    ms[j] = M(gen.crec(rep, "rep"))
+                    o2 = asm.run_assemble(vent, ms)
+                    st.scenario("mixed", None, calls=2)
+                    st.nontrivial += 1
+                    st.goal("mixed-enzymes")
+                    if o2.kind != "product":
+                        st.violation("interchange", "assembly-with-replacement-fails-" + str(o2.exc_name), scn, "product", o2.brief())
+                        continue
+                    pre = sum(4 + len(bodies[i]) for i in range(j))
+                    compare_products(st, scn, o1.seq, o2.seq, anchor, pre, ovs[j] + bodies[j], ovs[j] + nb)
+    st.sample(dict(family="mixed", vector_enzyme=venz, module_enzyme=menz, k=2, position=1))
+
+
 def units(tier):
-    us = [("generated", enz) for enz in bounds(tier)["enzymes"]]
+    us = [("generated", enz) for enz in bounds(tier)["enzymes"]] + [("mixed", m) for m in MIXED]
     regs.table()
     for r in ("ytk", "ptk", "cidar", "ecoflex", "plant"):
         us.append(("pairs", r))
@@ -363,6 +416,8 @@ def run_unit(unit, st, tier):
     kind, arg = unit
     if kind == "generated":
         unit_generated(st, arg, tier)
+    elif kind == "mixed":
+        unit_mixed(st, *arg)
     elif kind == "pairs":
         unit_registry_pairs(st, arg, tier)
     else:
@@ -375,6 +430,8 @@ def replay(scn, sub, st):
         # re-run the whole (enzyme) unit restricted by the recorded scenario is cheap enough
         tmp = st
         unit_generated(tmp, scn["enz"], "thorough")
+    elif fam == "mixed":
+        unit_mixed(st, scn["vector_enzyme"], scn["module_enzyme"])
     elif fam == "pairs":
         unit_registry_pairs(st, scn["reg"], "thorough")
     else:
